@@ -173,19 +173,26 @@ theorem unbound_atomic (σ : Store) (op : Op) (_h : (σ.step op).2 = .unbound) :
 
   Every function of `AnsiModel/` (and of `AnsiSpec/`) is a total Lean function accepted by Lean's
   termination checker: structural recursion, well-founded recursion with a proved measure, or an
-  explicit fuel argument — there is no `partial`, `unsafe` or `implemented_by` anywhere in the
-  model (the check script greps for them).  `Store.step`/`Store.run` are therefore total: every
-  operation of every script terminates, with one of the outcomes of `outcome_documented`.
+  explicit fuel argument.  No definition of the model is exempted from that check (the check
+  script scans the sources for the keywords that would switch it off).  `Store.step`/`Store.run`
+  are therefore total: every operation of every script terminates, with one of the outcomes of
+  `outcome_documented`.
 
   The one loop bounded by fuel is the `while` loop of `replace` (`AStr.replaceLoop`, fuel
   `x.len + 2`).  That the fuel suffices — the loop ends because no match is left, never because
-  the fuel ran out — is `C10.replace_text`: with that fuel the text of the result is exactly
-  CPython's `str.replace` (`PySpec.replace`), which replaces every match. -/
+  the fuel ran out — is `C10.replace_text` / `C10.replace_text_str_any`: with that fuel the text
+  of the result is exactly CPython's `str.replace` (`PySpec.replace`), which replaces every match. -/
 
 theorem replace_fuel_suffices (x : AStr) (old : Str) (v : AStr) (count : Int) (nid : Nat)
     (h : old ≠ []) :
     (x.replace old (.astr v) count nid).s = PySpec.replace x.s old v.s count :=
   C10.replace_text x old v count nid h
+
+theorem replace_fuel_suffices_str (x : AStr) (old raw : Str) (count : Int) (nid : Nat) (h : NoEsc raw) :
+    (x.replace old (.str raw) count nid).s = PySpec.replace x.s old raw count :=
+  C10.replace_text_str_any x old raw count nid h
+
+example : "c".toList ≠ [] ∧ NoEsc "Z".toList := ⟨by decide, by unfold NoEsc; decide⟩
 
 /-! ## 7. non-vacuity: a concrete history
 
@@ -227,22 +234,59 @@ example : (((Store.run {} script).get? 3).map (fun x => replayOk x.fmts)) = some
 /-- the store after the script -/
 def final : Store := Store.run {} script
 
+/-- `Outcome` has no decidable equality; this is the test used by the evaluated examples -/
+def raises (o : Outcome) (e : PyErr) : Bool :=
+  match o with
+  | .err e' => decide (e' = e)
+  | _ => false
+
+theorem raises_iff (o : Outcome) (e : PyErr) : raises o e = true ↔ o = .err e := by
+  cases o <;> simp [raises]
+
 /-- a failing operation in the middle of a history: `IndexError`, `ValueError` (two-character
-    fill), `TypeError` (a float as setting) — the store stays as it was and the invariant goes on -/
+    fill), `TypeError` (a float as setting), `ValueError` (a negative code) — the store stays as it
+    was and the invariant goes on -/
 example :
     (final.step (.index 4 1 3)).2 = .err .indexError ∧ (final.step (.index 4 1 3)).1.vals = final.vals ∧
     (final.step (.ljust 4 1 9 "ab".toList true)).2 = .err .valueError ∧
     (final.step (.apply 1 (.bad true) none none true)).2 = .err .typeError ∧
-    (final.step (.apply 1 (.int (-1)) none none true)).2 = .err .valueError := by decide +kernel
+    (final.step (.apply 1 (.int (-1)) none none true)).2 = .err .valueError :=
+  ⟨(raises_iff _ _).mp (by decide +kernel), by decide +kernel, (raises_iff _ _).mp (by decide +kernel),
+   (raises_iff _ _).mp (by decide +kernel), (raises_iff _ _).mp (by decide +kernel)⟩
 
-/-- … and a `replace` with a plain `str` afterwards (new objects 6, 7 for the copied style) -/
+/-- … and a `replace` with a plain `str` afterwards (the copies of the style made for each `Z` are
+    merged into the neighbouring runs by `+=`) -/
 def script2 : List Op := script ++ [.index 4 1 3, .replace 4 2 "c".toList (.inr "Z".toList) (-1)]
 
 example : StoreInv (Store.run {} script2) := wf_reachable _
 
 example : ((Store.run {} script2).get? 4).map (·.s) = some "bZbZ".toList ∧
     (((Store.run {} script2).get? 4).map (fun x => replayOk x.fmts)) = some true ∧
-    (Store.run {} script) .nid < (Store.run {} script2).nid := by decide +kernel
+    (Store.run {} script2).get? 1 = (Store.run {} script).get? 1 := by decide +kernel
+
+/-! hypotheses of the theorems above on this history -/
+
+/-- `inv_step`, `run_inv`: a store satisfying the invariant -/
+example : StoreInv final := wf_reachable script
+example : StoreInv (final.step (.addStr 5 3 "\x1b[4mtail".toList)).1 := inv_step (wf_reachable script) _
+
+/-- `reachable_wf`, `reachable_ok`, `reachable_shape`, `reachable_fresh`, `index_outcome`: a bound variable -/
+example : ∃ x, final.get? 3 = some x ∧ x.len = 9 := ⟨_, rfl, by decide +kernel⟩
+
+/-- `reachable_coherent`: variables 1 and 2 share the objects 1 and 2 -/
+example : ∃ x y, final.get? 1 = some x ∧ final.get? 2 = some y ∧
+    x.fmts.settings ≠ [] ∧ ∀ s ∈ y.fmts.settings, s ∈ x.fmts.settings :=
+  ⟨_, _, rfl, rfl, by decide +kernel, by decide +kernel⟩
+
+/-- `error_atomic`: see the failing operations above; `unbound_atomic`: variable 9 does not exist -/
+example : final.get? 9 = none ∧ (5 : Var) ∉ (Op.slice 4 9 none none).writes := by decide +kernel
+
+/-- `index_outcome` instantiated: `v3[-9]` succeeds, `v3[9]` raises -/
+example : ∀ x, final.get? 3 = some x → x.len = 9 →
+    (final.step (.index 4 3 (-9))).2 = .ok ∧ (final.step (.index 4 3 9)).2 = .err .indexError := by
+  intro x hx hl
+  have := index_outcome final 4 3
+  exact ⟨((this (-9) x hx).1).mpr (by omega), ((this 9 x hx).2).mpr (by omega)⟩
 
 end C09
 
@@ -266,3 +310,5 @@ end C09
 #print axioms C09.error_atomic_get
 #print axioms C09.unbound_atomic
 #print axioms C09.replace_fuel_suffices
+#print axioms C09.replace_fuel_suffices_str
+#print axioms C09.raises_iff
